@@ -185,10 +185,10 @@ def run(chk):
                     for i in range(d * d):
                         acc = acc + S.as_sc(vp[i]) * S.as_sc(T[i][r, c])
                     soft = 'probe_forall' if (d >= 7 and r == c) else 'forall'      # d=7 diagonal entries mix six nested radicals: z3 may time out (reported as soft unknowns)
-                    chk.add(f'sum_i v_i G_i == A [d={d}][{r},{c}]', ctx.facts, H.eq_sc(acc, Am[r, c]), key='matrix_to_gellmann_basis coefficients', kind=soft,
+                    chk.add(f'sum_i v_i G_i == A [d={d}][{r},{c}]', ctx.facts, H.eq_sc(acc, Am[r, c]), key='matrix_to_gellmann_basis coefficients', kind=soft, timeout_s=None if soft == 'forall' else 120,
                             replay=('gm', lambda m, Am=Am, d=d: payload(m, {'A': Am}, what='m2v_expand', d=d)))
                     chk.add(f'basis_to_matrix(matrix_to_basis(A)) == A [d={d}][{r},{c}]', ctx.facts, H.eq_sc(rec2[r, c], Am[r, c]),
-                            key='gellmann round trip matrix->vector->matrix', kind=soft,
+                            key='gellmann round trip matrix->vector->matrix', kind=soft, timeout_s=None if soft == 'forall' else 120,
                             replay=('gm', lambda m, Am=Am, d=d: payload(m, {'A': Am}, what='roundtrip_m', d=d)))
             w = H.cx_array(f'w{d}', d * d)
             M = gm.gellmann_basis_to_matrix(w)
